@@ -27,7 +27,6 @@ import (
 	"google.golang.org/grpc/credentials/insecure"
 	"google.golang.org/grpc/status"
 	"google.golang.org/grpc/test/bufconn"
-	"google.golang.org/protobuf/proto"
 
 	"nokvverif/internal/pbt"
 	"nokvverif/internal/sim"
@@ -90,7 +89,6 @@ type fixture struct {
 	events     []event
 	secOrder   map[string][]int // phase -> secondary regions in the order the writer first contacted them
 	readerHook func(method string, region, occ int)
-	inReader   bool
 }
 
 func slotKey(m string, r int) string { return fmt.Sprintf("%s@%d", m, r) }
@@ -396,5 +394,3 @@ func (f *fixture) inspect(k Key, start uint64) (keyState, error) {
 	}
 	return st, nil
 }
-
-var _ = proto.Clone
